@@ -5,6 +5,21 @@ V = os.path.dirname(os.path.dirname(os.path.abspath(__file__)))
 ALL = ['C%02d' % i for i in range(1, 20)]
 
 CHECKS = {
+ 'C04': dict(
+   technique='static who-may-write rules for the pairing counter and the transaction list; path rules over RES_IDLE and the tx constructor (clang CFG)',
+   text='Decides the counter/list discipline that pairing rests on, for every path: the transaction list is appended only by the constructor with index = size, slots are only NULLed or shifted off the front one-for-one with the pairing counter, every path of RES_IDLE that starts a response reads transactions[out_next_tx_index] before exactly one ++, and the pipelining flag is raised exactly under size > out_next_tx_index evaluated before the append. Not decided: that ids carried in request i and response i meet (values).',
+   note='Values are not tracked. Hybrid-mode callers that bind transactions themselves are outside the rule.',
+   ref='§4.4'),
+ 'C05': dict(
+   technique='static dominance / must-pass-through rules on the completion functions, who-may-run for the completion hooks; thorough tier: finite typestate abstraction of both state machines extracted from the CFG facts',
+   text='Decides for all paths: each completion hook is run at guarded sites only (progress set to COMPLETE first, under a dominating not-yet-COMPLETE test; TRANSACTION_COMPLETE only under is_complete which requires both sides), completion is atomic with detaching the transaction (the known F4 early returns are reported as known findings), progress fields only take phase constants and move backwards only in the 100-continue arm. Callback order over whole runs is decided by the typestate exploration in the thorough tier.',
+   note='Assumes callbacks return documented codes. Two known findings (F4 and its sibling return).',
+   ref='§4.5'),
+ 'C16': dict(
+   technique='static edge-dominance and must-pass-through rules on the drivers and CONNECT states; path-enumerated exactness row for the DATA_OTHER hand-over',
+   text='Decides for all paths: the TUNNEL test dominates every dispatch and is repeated after every OK state return before hooks can run; TUNNEL is entered only under the documented conditions and for both directions together; the CONNECT suspension and probe paths never move the cursor or consume; the response side yields at transaction end exactly when documented and its flag has one setter. Not decided: byte-exact resume position as a value.',
+   note='Assumes callbacks return documented codes.',
+   ref='§4.16'),
  'C09': dict(
    technique='static CFG rules: edge dominance of the sticky-state guards, path-enumerated rc->stream-state decision table of both drivers, guard facts at every HTP_DATA/HTP_DATA_BUFFER return of the 24 state functions',
    text='Decides, for every path of the two driver functions and of every state function, the structural part of the stream contract: STOP/ERROR are tested before any effect and return the same state; only documented states are returned; the mapping from state-function result to stream state and returned value follows the documented table; a state function asks for more data only with the chunk exhausted; the consumed accessor and byte counters are wired to the read offset / chunk length. Not decided: liveness (no endless DATA_OTHER ping-pong).',
